@@ -12,6 +12,7 @@ import (
 
 	"github.com/EliCDavis/polyform/formats/ply"
 	"github.com/EliCDavis/polyform/modeling"
+	"github.com/EliCDavis/polyform/nodes"
 
 	"verif/harness/core"
 	"verif/harness/meshlib"
@@ -112,6 +113,14 @@ func Variants(data []byte, base *Result, files bool, report Report) int {
 	}
 	for _, rv := range plyref.ReaderVariants {
 		check(rv.Name, Load(rv.New(data)))
+	}
+	// the node-graph entry point (ply.ReadNode) reads the same bytes; it answers every failure with an
+	// empty mesh, so it is compared only where the reference delivery loads
+	if base.Loaded() {
+		check("ply.ReadNode", guard(func() (*modeling.Mesh, error) {
+			m, err := ply.ReadNodeData{In: nodes.Value(append([]byte{}, data...)).Out()}.Process()
+			return &m, err
+		}))
 	}
 	if files {
 		if path := plyref.TempFile(data); path != "" {
